@@ -325,6 +325,20 @@ def run(ctx):
     ne = w.cover_edges()
     ctx.traces += ne
     ctx.stage('replay.completeness', initial_states=len(g.inits), graph_edges=g.n_edges, edges_replayed=ne, real_calls=w.steps)
+    # the same machine once more with potentials that all carry an EXPLICIT sigma: a missing diameter is still a missing item
+    # (the closures take their contact distance from the diameters whatever the potentials say)
+    saved = {k: dict(VERS[k]) for k in ('pot.AA', 'pot.AB', 'pot.BB')}
+    try:
+        for k in saved:
+            VERS[k][1] = ['HardSphere', {'sigma': 1.0}]
+        w = Walker(ctx, g, SysAdapter(ctx.seed, do_solves=False), 'replay.completeness.explicit_sigma')
+        ne2 = w.cover_edges()
+        ctx.traces += ne2
+        ctx.stage('replay.completeness.explicit_sigma', edges_replayed=ne2, real_calls=w.steps)
+    finally:
+        for k, v in saved.items():
+            VERS[k].clear()
+            VERS[k].update(v)
     ctx.sample({'edge': res.records['EDGE'][5]})
     # (2) sweep machine
     editable, steps = ('SweepThorough', 4) if thorough else ('SweepQuick', 3)
